@@ -205,7 +205,7 @@ class stDAG(AbstractSourceSinkGraph):
 
             demand[(u, v)] = edge_demand
             # adding the edge
-            G_nx.add_edge(u, v, l=demand[(u, v)], u=graphutils.bigNumber, c=cost)
+            G_nx.add_edge(u, v, l=demand[(u, v)], u=float('inf'), c=cost)
 
         minFlowCost, minFlow = graphutils.min_cost_flow(G_nx, self.source, self.sink)
 
